@@ -1811,3 +1811,24 @@ def cert_sequence_specs(assets, cap):
         S.append(("pe_certseq_" + "".join("%s%d" % (c, len(list(g))) for c, g in __import__("itertools").groupby(q)),
                   (lambda q=q: pe_with_cert_sequence(base, [es if c == "s" else ed for c in q])), "pe", "signatures", total))
     return S
+
+
+def truncation_sweep(b, kind, light=False):
+    """Systematic truncations: at every structural boundary of the layout (and 1, 2, 4 bytes around it), every 4 bytes
+    inside the last 256 bytes of the file, and for dex every 2 bytes inside the map list (the last structure: a file
+    cut short there declares more items than are present).  Yields (what, edit)."""
+    _, B = layout_of(b, kind)
+    cuts = set()
+    for x in B:
+        for d in ((0, 1) if light else (-4, -2, -1, 0, 1, 2, 4)):
+            cuts.add(x + d)
+    if not light:
+        for x in range(max(0, len(b) - 256), len(b), 4):
+            cuts.add(x)
+    if kind == "dex":
+        mo = u32(b, 0x34)
+        n = u32(b, mo) if mo + 4 <= len(b) else 0
+        for x in range(mo, min(len(b), mo + 4 + 12 * min(n, 64)) + 1, 2):
+            cuts.add(x)
+    for c in sorted(x for x in cuts if 0 < x < len(b)):
+        yield ("truncated at %d of %d" % (c, len(b)), {"op": "trunc", "len": c})
